@@ -279,3 +279,7 @@ func SharedWrites() []string    { return nil }
 // (engine only: os.Exit and log.Fatal end f there); natively harnesses run the
 // real binary instead.
 func ExitCode(f func()) int { f(); return -1 }
+
+// Affine hands a value to the engine, which records the GF(2) affine form of
+// each of its bits over the input bits (engine only).
+func Affine(name string, x uint32) {}
